@@ -337,7 +337,7 @@ class Gen:
         tsize = r.choice([512, 512, 4096, 1 << 20])
         # small tables + few partitions: fragments span several tables, keys live in older tables
         parts = r.choice([3, 3, 7]) if tsize == 512 else r.choice([7, 23])
-        dms = getattr(self, "dms", ["dm", "dm2"])
+        dms = getattr(self, "dms", ["dm", "a.b", "dm2"])      # a DMap name may contain dots
         # one DMap may have its own default TTL (config.DMaps.Custom)
         custom = " cdm=%s cttl_ms=%d%s" % (dms[-1], r.choice([0, 1500, 3000]), r.choice(["", " cnoeng=1"])) if r.random() < 0.3 else ""
         yield "c.new n=%d r=%d w=%d rq=%d parts=%d tsize=%d rr=%d ttl_ms=%d%s" % (
@@ -364,7 +364,13 @@ class Gen:
             if r.random() < 0.04:
                 # the background workers run at any moment: expired entries are removed by the eviction scan (on the owner and
                 # its backups), tables are compacted, empty fragments are dropped - no operation may notice
-                yield r.choice(["bg.evict", "bg.evict", "bg.compact", "bg.janitor"])
+                bg = r.choice(["bg.evict", "bg.evict", "bg.compact", "bg.janitor"])
+                yield bg
+                if bg == "bg.evict":
+                    # what the scan removed is gone from the primary and from every backup copy
+                    for d2 in dms:
+                        for k2 in keys:
+                            yield "wb %s %s" % (d2, hx(k2))
             w = r.random()
             if w < 0.35:
                 ver += 1
